@@ -324,5 +324,444 @@ theorem call_colperm (cv cv' : Conv F) (df df' : DF L F)
   rw [hfresh, hfresh', ht]
   exact colNamesDict_perm _ _ hc2s _
 
+/-! ### statistics under a column permutation -/
+
+/-- what `_update_col_stats` does to the statistics of one column -/
+def embUpd (tf : TF F) (name : String) (st : ColStats) : ColStats :=
+  match dictGet tf.feats .embedding, dictGet tf.names .embedding with
+  | some (.met m), some cols =>
+    match cols.idxOf? name with
+    | some i => { st with embDim := (m.offset.getD (i + 1) 0 : Int) - m.offset.getD i 0 }
+    | none => st
+  | _, _ => st
+
+theorem updateEmbDim_eq (tf : TF F) (stats : List (String × ColStats)) :
+    updateEmbDim tf stats = stats.map fun p => (p.1, embUpd tf p.1 p.2) := by
+  unfold updateEmbDim embUpd
+  cases dictGet tf.feats .embedding with
+  | none => simp
+  | some f =>
+    cases f with
+    | met m =>
+      cases dictGet tf.names .embedding with
+      | none => simp
+      | some cols =>
+        simp only
+        apply List.map_congr_left
+        intro p _
+        obtain ⟨name, st⟩ := p
+        simp only
+        cases cols.idxOf? name <;> rfl
+    | dense r => simp
+    | mnt m => simp
+
+theorem embUpd_cats (tf : TF F) (name : String) (st : ColStats) : (embUpd tf name st).cats = st.cats := by
+  unfold embUpd
+  split
+  · split <;> rfl
+  · rfl
+
+theorem embUpd_congr (tf tf' : TF F) (hf : DictEq tf'.feats tf.feats) (hn : DictEq tf'.names tf.names) :
+    embUpd tf' = embUpd tf := by
+  funext name st
+  simp only [embUpd, hf .embedding, hn .embedding]
+
+theorem dictGet_mapKV [DecidableEq κ] (d : List (κ × ν)) (g : κ → ν → ν') (k : κ) :
+    dictGet (d.map fun p => (p.1, g p.1 p.2)) k = (dictGet d k).map (g k) := by
+  induction d with
+  | nil => rfl
+  | cons q rest ih =>
+    obtain ⟨k', v'⟩ := q
+    simp only [List.map_cons, dictGet]
+    by_cases hk : k' = k
+    · subst hk; simp
+    · simp [hk, ih]
+
+theorem updateEmbDim_dictEq (tf tf' : TF F) (stats stats' : List (String × ColStats))
+    (hf : DictEq tf'.feats tf.feats) (hn : DictEq tf'.names tf.names) (hs : DictEq stats' stats) :
+    DictEq (updateEmbDim tf' stats') (updateEmbDim tf stats) := by
+  intro k
+  rw [updateEmbDim_eq, updateEmbDim_eq, dictGet_mapKV, dictGet_mapKV, hs k, embUpd_congr tf tf' hf hn]
+
+theorem fitStats_keys (vc : String → List Key → List Key) (t : Option String) (df : DF L F) :
+    (fitStats vc t df).map (·.1) = df.cols.map (·.name) := by
+  simp [fitStats, List.map_map, Function.comp]
+
+theorem fitStats_perm (vc : String → List Key → List Key) (t : Option String) (df df' : DF L F)
+    (hl : df'.labels = df.labels) (hp : df'.cols.Perm df.cols) (hnd : (df.cols.map (·.name)).Nodup) :
+    DictEq (fitStats vc t df') (fitStats vc t df) := by
+  intro k
+  apply dictGet_perm_nodup
+  · simp only [fitStats, hl]
+    exact hp.map _
+  · rw [fitStats_keys]
+    exact (hp.map _).nodup_iff.mpr hnd
+
+/-! ### closed form of the merged canonical name table -/
+
+theorem groupD_mergeNamesStep (names : List (Stype × List String)) (s k : Stype) (hs : s.parent ≠ s) :
+    groupD (mergeNamesStep names s) k =
+      if k = s then [] else if k = s.parent then groupD names s.parent ++ groupD names s else groupD names k := by
+  unfold groupD
+  rw [dictGet_mergeNamesStep names s k hs]
+  cases hcs : dictGet names s with
+  | none =>
+    by_cases h1 : k = s
+    · subst h1; simp [hcs]
+    · by_cases h2 : k = s.parent
+      · subst h2; simp [h1]
+      · simp [h1, h2]
+  | some cs =>
+    by_cases h1 : k = s
+    · simp [h1]
+    · by_cases h2 : k = s.parent
+      · simp [h2, hs, groupD]
+      · simp [h1, h2]
+
+/-- every group of the name table after `_merge_feat`, in terms of the groups before -/
+theorem groupD_mergeNames (names : List (Stype × List String)) (k : Stype) :
+    groupD (mergeNames names) k =
+      match k with
+      | .text_embedded => []
+      | .image_embedded => []
+      | .embedding => groupD names .embedding ++ groupD names .text_embedded ++ groupD names .image_embedded
+      | k => groupD names k := by
+  rw [mergeNames_eq, groupD_mergeNamesStep _ _ _ (by decide)]
+  cases k <;> simp [Stype.parent, groupD_mergeNamesStep _ .text_embedded _ (by decide)]
+
+theorem groupD_colNamesDict (c2s : List (String × Stype)) (t : Option String) (s : Stype) :
+    groupD (colNamesDict c2s t) s = sortNames (groupOf c2s t s) := by
+  unfold groupD
+  rw [dictGet_colNamesDict]
+  unfold optL
+  split
+  · rename_i h; simp [h, sortNames]
+  · simp
+
+/-- SPECIFICATION of the schema: the group stored under stype `s` in `col_names_dict` -/
+def schemaGroup (c2s : List (String × Stype)) (t : Option String) : Stype → List String
+  | .text_embedded => []
+  | .image_embedded => []
+  | .embedding => sortNames (groupOf c2s t .embedding) ++ sortNames (groupOf c2s t .text_embedded) ++
+      sortNames (groupOf c2s t .image_embedded)
+  | s => sortNames (groupOf c2s t s)
+
+theorem groupD_final (c2s : List (String × Stype)) (t : Option String) (s : Stype) :
+    groupD (mergeNames (colNamesDict c2s t)) s = schemaGroup c2s t s := by
+  rw [groupD_mergeNames]
+  cases s <;> simp only [schemaGroup, groupD_colNamesDict]
+
+theorem dictGet_eq_optL (d : List (Stype × List String)) (h : ∀ p ∈ d, p.2 ≠ []) (s : Stype) :
+    dictGet d s = optL (groupD d s) := by
+  unfold groupD optL
+  cases hg : dictGet d s with
+  | none => simp
+  | some v =>
+    have := h (s, v) (mem_of_dictGet d s v hg)
+    simp at this
+    simp [this]
+
+theorem colNamesDict_groups (c2s : List (String × Stype)) (t : Option String) :
+    ∀ p ∈ colNamesDict c2s t, p.2 ≠ [] := by
+  intro p hp
+  obtain ⟨h1, h2⟩ := mem_colNamesDict c2s t p hp
+  rw [h2]
+  exact sortNames_ne_nil _ h1
+
+/-- `col_names_dict` after materialization, key by key: present exactly when the schema group is non-empty -/
+theorem dictGet_final (c2s : List (String × Stype)) (t : Option String) (s : Stype) :
+    dictGet (mergeNames (colNamesDict c2s t)) s = optL (schemaGroup c2s t s) := by
+  rw [dictGet_eq_optL _ (mergeNames_groups _ (colNamesDict_groups c2s t)), groupD_final]
+
+/-! ### every non-target column is listed exactly once -/
+
+theorem groupOf_nodup (c2s : List (String × Stype)) (t : Option String) (s : Stype)
+    (hnd : (c2s.map (·.1)).Nodup) : (groupOf c2s t s).Nodup := by
+  unfold groupOf
+  exact List.Nodup.sublist (List.Sublist.map _ List.filter_sublist) hnd
+
+theorem stype_unique (c2s : List (String × Stype)) (hnd : (c2s.map (·.1)).Nodup) (c : String) (s s' : Stype)
+    (h : (c, s) ∈ c2s) (h' : (c, s') ∈ c2s) : s' = s := by
+  have h1 := dictGet_of_mem_nodup c2s c s h hnd
+  have h2 := dictGet_of_mem_nodup c2s c s' h' hnd
+  rw [h1] at h2
+  exact (Option.some.inj h2).symm
+
+theorem count_sorted_group (c2s : List (String × Stype)) (t : Option String) (hnd : (c2s.map (·.1)).Nodup)
+    (c : String) (s : Stype) (h : (c, s) ∈ c2s) (ht : some c ≠ t) (s' : Stype) :
+    (sortNames (groupOf c2s t s')).count c = if s' = s then 1 else 0 := by
+  rw [(sortNames_perm _).count_eq, (groupOf_nodup c2s t s' hnd).count]
+  by_cases hs : s' = s
+  · subst hs; simp [(mem_groupOf c2s t s' c).mpr ⟨h, ht⟩]
+  · have : c ∉ groupOf c2s t s' := by
+      intro hm
+      exact hs (stype_unique c2s hnd c s s' h ((mem_groupOf _ _ _ _).mp hm).1)
+    simp [this, hs]
+
+theorem count_schemaGroup (c2s : List (String × Stype)) (t : Option String) (hnd : (c2s.map (·.1)).Nodup)
+    (c : String) (s : Stype) (h : (c, s) ∈ c2s) (ht : some c ≠ t) (s' : Stype) :
+    (schemaGroup c2s t s').count c = if s' = s.parent then 1 else 0 := by
+  have L := count_sorted_group c2s t hnd c s h ht
+  cases s' <;> simp only [schemaGroup, List.count_append, L, List.count_nil] <;> cases s <;> simp [Stype.parent]
+
+theorem count_flatMap_zero (d : List (Stype × List String)) (c : String) (h : ∀ g ∈ d, c ∉ g.2) :
+    (d.flatMap (·.2)).count c = 0 := by
+  rw [List.count_eq_zero]
+  intro hm
+  obtain ⟨g, hg, hc⟩ := List.mem_flatMap.mp hm
+  exact h g hg hc
+
+theorem count_flatMap_dict (d : List (Stype × List String)) (hk : (d.map (·.1)).Nodup) (k : Stype) (v : List String)
+    (c : String) (hm : (k, v) ∈ d) (hother : ∀ g ∈ d, g.1 ≠ k → c ∉ g.2) :
+    (d.flatMap (·.2)).count c = v.count c := by
+  induction d with
+  | nil => simp at hm
+  | cons q rest ih =>
+    simp only [List.map_cons, List.nodup_cons] at hk
+    simp only [List.flatMap_cons, List.count_append]
+    rcases List.mem_cons.mp hm with e | hm'
+    · subst e
+      have : (rest.flatMap (·.2)).count c = 0 := by
+        apply count_flatMap_zero
+        intro g hg
+        apply hother g (by simp [hg])
+        intro e
+        exact hk.1 (e ▸ List.mem_map.mpr ⟨g, hg, rfl⟩)
+      simp [this]
+    · have hq : q.1 ≠ k := by
+        intro e
+        exact hk.1 (e ▸ List.mem_map.mpr ⟨(k, v), hm', rfl⟩)
+      have : q.2.count c = 0 := List.count_eq_zero.mpr (hother q (by simp) hq)
+      rw [this, ih hk.2 hm' (fun g hg => hother g (by simp [hg]))]
+      simp
+
+/-- in the flattened `col_names_dict` every non-target column occurs exactly once, the target never -/
+theorem count_final (c2s : List (String × Stype)) (t : Option String) (hnd : (c2s.map (·.1)).Nodup)
+    (c : String) (s : Stype) (h : (c, s) ∈ c2s) (ht : some c ≠ t) :
+    ((mergeNames (colNamesDict c2s t)).flatMap (·.2)).count c = 1 := by
+  have hkeys := mergeNames_keys _ (keys_colNamesDict c2s t)
+  have hcnt := count_schemaGroup c2s t hnd c s h ht
+  have hne : schemaGroup c2s t s.parent ≠ [] := by
+    intro e
+    have := hcnt s.parent
+    rw [e] at this
+    simp at this
+  have hget : dictGet (mergeNames (colNamesDict c2s t)) s.parent = some (schemaGroup c2s t s.parent) := by
+    rw [dictGet_final]; simp [optL, hne]
+  rw [count_flatMap_dict _ hkeys s.parent _ c (mem_of_dictGet _ _ _ hget), hcnt s.parent]
+  · simp
+  · intro g hg hgk hc
+    have h1 := dictGet_of_mem_nodup _ g.1 g.2 hg hkeys
+    rw [dictGet_final] at h1
+    have h2 : g.2 = schemaGroup c2s t g.1 := by
+      unfold optL at h1
+      split at h1
+      · simp at h1
+      · exact (Option.some.inj h1).symm
+    have := hcnt g.1
+    rw [← h2, if_neg hgk] at this
+    exact (List.count_eq_zero.mp this) hc
+
+theorem not_mem_final_of_target (c2s : List (String × Stype)) (t : String) :
+    t ∉ (mergeNames (colNamesDict c2s (some t))).flatMap (·.2) := by
+  intro hm
+  obtain ⟨p, hp, hc⟩ := List.mem_flatMap.mp hm
+  obtain ⟨g, hg, hcg, _⟩ := mergeNames_origin _ p hp t hc
+  obtain ⟨_, h2⟩ := mem_colNamesDict c2s (some t) g hg
+  rw [h2, mem_sortNames, mem_groupOf] at hcg
+  exact hcg.2 rfl
+
+/-! ### class count of a categorical target -/
+
+theorem nodup_eraseDups_aux [BEq α] [LawfulBEq α] : ∀ (n : Nat) (l : List α), l.length ≤ n → l.eraseDups.Nodup
+  | 0, l, h => by
+    have : l = [] := List.length_eq_zero_iff.mp (by omega)
+    subst this; simp
+  | _ + 1, [], _ => by simp
+  | n + 1, a :: as, h => by
+    rw [List.eraseDups_cons, List.nodup_cons]
+    refine ⟨?_, nodup_eraseDups_aux n _ ?_⟩
+    · intro hm
+      have := List.mem_eraseDups.mp hm
+      simp at this
+    · have := List.length_filter_le (fun b => !b == a) as
+      simp only [List.length_cons] at h
+      omega
+
+theorem nodup_eraseDups [BEq α] [LawfulBEq α] (l : List α) : l.eraseDups.Nodup :=
+  nodup_eraseDups_aux l.length l (Nat.le_refl _)
+
+/-- an admissible `value_counts` index lists every distinct observed value exactly once -/
+theorem validCats_spec (cats obs : List Key) (h : validCats cats obs = true) :
+    cats.Nodup ∧ (∀ k, k ∈ cats ↔ k ∈ obs) ∧ cats.length = obs.eraseDups.length := by
+  simp only [validCats, Bool.and_eq_true, beq_iff_eq, List.all_eq_true, List.contains_iff_mem] at h
+  obtain ⟨⟨⟨h1, h2⟩, h3⟩, _⟩ := h
+  have hnd : cats.Nodup := by rw [← h1]; exact nodup_eraseDups cats
+  have hmem : ∀ k, k ∈ cats ↔ k ∈ obs := fun k => ⟨h2 k, h3 k⟩
+  refine ⟨hnd, hmem, ?_⟩
+  apply List.Perm.length_eq
+  rw [List.perm_ext_iff_of_nodup hnd (nodup_eraseDups obs)]
+  intro k
+  rw [List.mem_eraseDups]
+  exact hmem k
+
+theorem binarySort_length (cats : List Key) : (binarySort cats).length = cats.length := by
+  unfold binarySort
+  split
+  · split <;> rfl
+  · rfl
+
+theorem mem_binarySort (cats : List Key) (k : Key) : k ∈ binarySort cats ↔ k ∈ cats := by
+  unfold binarySort
+  split
+  · split
+    · simp [or_comm]
+    · rfl
+  · rfl
+
+theorem dictGet_fitStats (vc : String → List Key → List Key) (t : Option String) (df : DF L F) (c : Col F)
+    (hc : c ∈ df.cols) (hnd : (df.cols.map (·.name)).Nodup) :
+    ∃ st, dictGet (fitStats vc t df) c.name = some st ∧
+      st.cats = (if some c.name = t ∧ c.stype = .categorical then binarySort (vc c.name (observedKeys c.stype c.cells))
+                 else vc c.name (observedKeys c.stype c.cells)) ∧
+      st.embDim = (if c.stype = .embedding then embDim df.labels c.cells else -1) := by
+  refine ⟨_, dictGet_of_mem_nodup (fitStats vc t df) c.name _ (List.mem_map.mpr ⟨c, hc, rfl⟩)
+    (by rw [fitStats_keys]; exact hnd), rfl, rfl⟩
+
+theorem materialize_some (vc : String → List Key → List Key) (t : Option String)
+    (emb : String → String → List (Val F)) (df : DF L F) (m : Materialized F)
+    (hm : materialize vc t emb df = some m) :
+    ∃ cv', (fitConv vc t emb df).call df = some (m.tf, cv') ∧ m.conv = cv' ∧
+      m.stats = updateEmbDim m.tf (fitStats vc t df) := by
+  rw [materialize_eq] at hm
+  cases hc : (fitConv vc t emb df).call df with
+  | none => simp [hc] at hm
+  | some r =>
+    simp only [hc, Option.map_some, Option.some.injEq] at hm
+    subst hm
+    exact ⟨r.2, rfl, rfl, rfl⟩
+
+/-- `len(col_stats[target][COUNT][0])` of a materialized dataset is the length of the fitted list of the target -/
+theorem numClasses_materialized (vc : String → List Key → List Key) (t : String)
+    (emb : String → String → List (Val F)) (df : DF L F) (m : Materialized F)
+    (hm : materialize vc (some t) emb df = some m) (c : Col F) (hc : c ∈ df.cols) (hn : c.name = t)
+    (hs : c.stype = .categorical) (hnd : (df.cols.map (·.name)).Nodup) :
+    numClasses m.stats t = (vc t (observedKeys .categorical c.cells)).length := by
+  obtain ⟨cv', _, _, hst⟩ := materialize_some vc (some t) emb df m hm
+  obtain ⟨st, hget, hcats, _⟩ := dictGet_fitStats vc (some t) df c hc hnd
+  rw [hn] at hget
+  simp only [numClasses, hst, updateEmbDim_eq, dictGet_mapKV, hget, Option.map_some, Option.getD_some, embUpd_cats, hcats]
+  simp [hn, hs, binarySort_length]
+
+
+/-- whatever a converter call returns passed `TensorFrame.validate`, carries the target through its own mapper
+    and shares its name table with the converter; nothing but the name table of the converter changes -/
+theorem call_facts (cv cv' : Conv F) (df : DF L F) (tf : TF F) (h : cv.call df = some (tf, cv')) :
+    tf.validate = true ∧ tf.y = cv.yOf df ∧ cv'.names = tf.names ∧ cv'.stats = cv.stats ∧
+      cv'.colToStype = cv.colToStype ∧ cv'.target = cv.target := by
+  unfold Conv.call at h
+  simp only [Option.bind_eq_bind, Option.bind_eq_some_iff] at h
+  obtain ⟨feats, _, h⟩ := h
+  split at h
+  · simp at h
+  · simp only [Option.bind_eq_some_iff] at h
+    obtain ⟨⟨feats', names'⟩, _, h⟩ := h
+    simp only at h
+    split at h
+    · simp at h
+    · rename_i hv
+      simp only [Option.pure_def, Option.some.injEq, Prod.mk.injEq] at h
+      obtain ⟨h1, h2⟩ := h
+      subst h1 h2
+      simp at hv
+      exact ⟨hv, rfl, rfl, rfl, rfl, rfl⟩
+
+theorem call_numRows (cv cv' : Conv F) (df : DF L F) (n : Nat) (hok : CallOK cv df n) (tf : TF F)
+    (h : cv.call df = some (tf, cv')) : tf.numRows = n := by
+  rw [call_spec cv df n hok] at h
+  simp only [Option.some.injEq, Prod.mk.injEq] at h
+  rw [← h.1]
+  obtain ⟨p, rest, hp⟩ := List.exists_cons_of_ne_nil (mergeNames_nonempty _ hok.nonempty)
+  simp only [TF.numRows, mapG, hp, List.map_cons]
+  exact specFeat_numRows _ _ _
+
+/-! ### a Boolean checker for the typed domain (used by the non-vacuity examples) -/
+
+def cellTokOK : Cell F → Bool
+  | .toks ts => !ts.contains missingTok
+  | _ => true
+
+def colWFb (cfg : ColCfg F) (s : Stype) (cells : List (Cell F)) : Bool :=
+  s != .text_tokenized &&
+  (s != .multicategorical || (!cfg.cats.contains missingTok && cells.all cellTokOK)) &&
+  (s != .embedding || (decide (0 ≤ cfg.embDim) &&
+    cells.all fun c => c.isMissing || decide (((cellVec c).length : Int) = cfg.embDim)))
+
+def widthOKb (cfg : ColCfg F) (s : Stype) (cells : List (Cell F)) : Bool :=
+  !s.useEmbedding ||
+    cells.all fun c => (encodeCell cfg s c).length == (encodeCell cfg s (cells.headD .missing)).length
+
+def convFrameOKb (cv : Conv F) (df : DF L F) : Bool :=
+  decide (0 < df.numRows) && decide ((cv.colToStype.map (·.1)).Nodup) &&
+  cv.colToStype.all (fun p => p.2 != .text_tokenized) &&
+  cv.colToStype.any (fun p => some p.1 != cv.target) &&
+  cv.colToStype.all (fun p => some p.1 == cv.target ||
+    match df.col? p.1 with
+    | none => false
+    | some col => col.cells.length == df.numRows && colWFb (cv.cfg p.1) p.2 col.cells &&
+        widthOKb (cv.cfg p.1) p.2 col.cells) &&
+  (match cv.target with
+   | none => true
+   | some t => match df.col? t with
+     | none => true
+     | some col => col.cells.length == df.numRows && colWFb (cv.cfg t) (cv.stypeOf t) col.cells)
+
+theorem colWF_of_check (cfg : ColCfg F) (s : Stype) (cells : List (Cell F)) (h : colWFb cfg s cells = true) :
+    ColWF cfg s cells := by
+  simp only [colWFb, Bool.and_eq_true, Bool.or_eq_true, bne_iff_ne, ne_eq, Bool.not_eq_true', List.all_eq_true,
+    decide_eq_true_eq] at h
+  obtain ⟨⟨h1, h2⟩, h3⟩ := h
+  refine ⟨h1, ?_, ?_⟩
+  · intro hs
+    rcases h2 with h2 | ⟨h2, h2'⟩
+    · exact absurd hs h2
+    · refine ⟨by simpa using h2, ?_⟩
+      intro ts hts
+      have := h2' _ hts
+      simpa [cellTokOK] using this
+  · intro hs
+    rcases h3 with h3 | ⟨h3, h3'⟩
+    · exact absurd hs h3
+    · refine ⟨h3, ?_⟩
+      intro c hc hm
+      rcases h3' c hc with h | h
+      · rw [hm] at h; exact absurd h (by simp)
+      · exact h
+
+theorem convFrameOK_of_check (cv : Conv F) (df : DF L F) (h : convFrameOKb cv df = true) : ConvFrameOK cv df := by
+  simp only [convFrameOKb, Bool.and_eq_true, decide_eq_true_eq, List.all_eq_true, List.any_eq_true, bne_iff_ne, ne_eq,
+    Bool.or_eq_true, beq_iff_eq] at h
+  obtain ⟨⟨⟨⟨⟨h1, h2⟩, h3⟩, h4⟩, h5⟩, h6⟩ := h
+  refine ⟨h1, h2, h3, ?_, ?_, ?_⟩
+  · obtain ⟨p, hp, hpt⟩ := h4
+    exact ⟨p, hp, hpt⟩
+  · intro p hp hpt
+    rcases h5 p hp with h | h
+    · exact absurd h hpt
+    · cases hc : df.col? p.1 with
+      | none => simp [hc] at h
+      | some col =>
+        simp only [hc, Bool.and_eq_true, beq_iff_eq] at h
+        obtain ⟨⟨ha, hb⟩, hw⟩ := h
+        refine ⟨col, rfl, ha, colWF_of_check _ _ _ hb, ?_⟩
+        intro hE
+        refine ⟨(encodeCell (cv.cfg p.1) p.2 (col.cells.headD .missing)).length, ?_⟩
+        intro cell hcell
+        simp only [widthOKb, hE, Bool.not_true, Bool.false_or, List.all_eq_true, beq_iff_eq] at hw
+        exact hw cell hcell
+  · intro t col ht hcol
+    simp only [ht, hcol, Bool.and_eq_true, beq_iff_eq] at h6
+    exact ⟨h6.1, colWF_of_check _ _ _ h6.2⟩
+
 end Mat
 end TFVerif
